@@ -7,7 +7,8 @@
    aggregator's lists or stacks. *)
 From Coq Require Import String List.
 From CMinx Require Import Base.Str Model.Lexer Model.Parser Model.DocTypes Model.Aggregator
-     Spec.EntrySpec Spec.AggSpec Gen.SourceLiterals Proofs.AggInv Proofs.SpecLinks Proofs.LiteralsMatch.
+     Spec.EntrySpec Spec.AggSpec Gen.SourceLiterals Proofs.AggInv Proofs.SpecLinks Proofs.LiteralsMatch
+     Base.PySem Gen.PySource Proofs.SourceMatch Model.Writer.
 Import ListNotations.
 
 (* the main refinement: under default settings the entry list (kind and name, in order) of a
@@ -104,3 +105,13 @@ Theorem C02_enter_command_chain_pinned :
      s"include_undocumented_"; F; s"process_"; F; []; s"function"; s"macro"].
 Proof. exact enter_command_literals. Qed.
 Print Assumptions C02_enter_command_chain_pinned.
+
+(* ---- tie by translation: Gen/PySource.v is regenerated from the CURRENT Python source by
+   translators/py2coq.py (statement-by-statement rendering of the function into Gallina over the
+   combinators of Base/PySem.v); the model function is proved equal to it for all arguments ---- *)
+Theorem C02_generic_process_matches_source :
+  forall w name doc params,
+    PySource.GenericCommandDocumentation_process w [] name doc params
+    = w_add w (render_entry (EGeneric name doc params)).
+Proof. exact generic_process_matches_source. Qed.
+Print Assumptions C02_generic_process_matches_source.
